@@ -53,7 +53,7 @@ PROPS = {
     },
     'C10': {
         'level': 'exploration',
-        'strata': [('label-histories', 'labels', 0.7), ('mixed-histories', 'container', 0.3)],
+        'strata': [('label-histories', 'labels', 0.65), ('mixed-histories', 'container', 0.25), ('small-spans-systematic', 'labels_sys', 0.1)],
         'quick': 16000,
         'thorough': 300000,
     },
@@ -90,6 +90,7 @@ SYSTEMATIC = {
     'C02': {'outcome-sequences-systematic': 46416},
     'C06': {'single-fault-lattice': 422400},
     'C09': {'operation-pairs-systematic': 169 * 169},
+    'C10': {'small-spans-systematic': 12960},
 }
 
 COMPONENTS = {
